@@ -61,7 +61,7 @@ def family_small(n, seed, with_ad=True):
 
 
 def sem_check(ctx, P, variants, level="model_checking", timeout=60, extra_cov=None, strict_instances=True,
-              tol=1e-9, post=None, sig_extra=None, write=True):
+              tol=1e-9, post=None, sig_extra=None, write=True, skip=None):
     """Judge programs P with TLC, run every variant on the real system, compare.
 
     variants(p) -> list of (variant_name, kwargs for pl_tasks.prob)"""
@@ -72,7 +72,8 @@ def sem_check(ctx, P, variants, level="model_checking", timeout=60, extra_cov=No
     index = []
     for i, p in enumerate(P):
         for (vn, kw) in variants(p):
-            jobs.append(("prob", kw))
+            kw = dict(kw)
+            jobs.append((kw.pop("_task", "prob"), kw))
             index.append((i, vn, kw))
     runs = pl.run_jobs(jobs, nproc=ctx.nproc, timeout=timeout)
     classes = {"mustAnswer": 0, "mustReject": 0, "either": 0, "invalid": 0, "inconsistent": 0}
@@ -97,6 +98,8 @@ def sem_check(ctx, P, variants, level="model_checking", timeout=60, extra_cov=No
         ctx.evaluations += 1
         p, j = P[i], J[i]
         per_prog_runs.setdefault(i, []).append((vn, kw, r))
+        if skip and skip(p, j, r, vn):
+            continue
         vs = semcheck.verdict(p, j, r, strict_instances=strict_instances, tol=tol)
         key = r.get("error") or "answered"
         outcomes[key] = outcomes.get(key, 0) + 1
@@ -168,7 +171,8 @@ def sem_replay(ctx, path):
                                           "samples": [case["kwargs"].get("text", "")]})
 
 
-def relational(ctx, P, J, per_prog_runs, base="default", clause="variant-disagrees", tol=1e-9, same_instances=True):
+def relational(ctx, P, J, per_prog_runs, base="default", clause="variant-disagrees", tol=1e-9, same_instances=True,
+               skip=None, sig_extra=None, only=None):
     """Compare every variant run with the base variant of the same program: same outcome class (answered / same
     error class), same reported instances, same probabilities."""
     n = 0
@@ -176,11 +180,15 @@ def relational(ctx, P, J, per_prog_runs, base="default", clause="variant-disagre
         b = [r for (vn, kw, r) in runs if vn == base]
         if not b:
             continue
+        if only and not only(P[i], J[i]):
+            continue
         b = b[0]
         if b.get("inconclusive"):
             continue
         for (vn, kw, r) in runs:
             if vn == base or r.get("inconclusive"):
+                continue
+            if skip and skip(P[i], J[i], r, vn):
                 continue
             n += 1
             diff = None
@@ -204,6 +212,8 @@ def relational(ctx, P, J, per_prog_runs, base="default", clause="variant-disagre
                 if er.get("error"):
                     sig.update({"error": er["error"], "site": er.get("site", ""), "chain": er.get("chain", "")})
                 sig.update(semcheck.triggers(P[i]))
+                if sig_extra:
+                    sig.update(sig_extra(P[i], J[i], r, vn))
                 ctx.violation(sig, "%s\n%s" % (diff, kw.get("text", "")),
                               {"kind": "rel", "program": P[i], "variant": vn, "kwargs": kw, "base_kwargs":
                                [k2 for (v2, k2, r2) in runs if v2 == base][0], "run": r, "base_run": b})
